@@ -3213,8 +3213,11 @@ orc_compiler_mmx_register_rules (OrcTarget *target)
   rule_set = orc_rule_set_new (orc_opcode_set_get("sys"), target,
       ORC_TARGET_MMX_MMXEXT);
 #else
+  /* many of these rules (and the load/store rules of partial vectors) use
+   * pshufw, pinsrw, pavgb, pmulhuw, pminub, ... which need the SSE integer
+   * extensions to MMX */
   rule_set = orc_rule_set_new (orc_opcode_set_get("sys"), target,
-      ORC_TARGET_MMX_MMX);
+      ORC_TARGET_MMX_MMX | ORC_TARGET_MMX_MMXEXT);
 #endif
 
   orc_rule_register (rule_set, "loadb", mmx_rule_loadX, NULL);
